@@ -40,12 +40,17 @@ def default_header(case):
 
 
 def header_model_lines(text):
-    """the `##` lines of a VCF text as pysam's header.records shows them to unphase_header: key, ID of a structured line"""
-    out = []
+    """the `##` lines of a VCF text as pysam's header.records shows them to unphase_header: key, ID of a structured line;
+    htslib drops a generic `##key=value` line that repeats an earlier one verbatim"""
+    out, seen = [], set()
     for line in text.split("\n"):
         if not line.startswith("##"):
             continue
         key, _, value = line[2:].partition("=")
+        if not value.startswith("<"):
+            if line in seen:
+                continue
+            seen.add(line)
         hid = None
         if value.startswith("<"):
             for part in value[1:].split(","):
@@ -266,3 +271,59 @@ def gen_header(rng, case):
     for i in range(rng.choice([0, 1, 1, 2, 2, 3])):
         body.insert(rng.randrange(len(body) + 1), "##phasing=" + rng.choice(["partial", "none", "whatshap", "partial"]) + ("" if rng.random() < 0.5 else str(i)))
     return lines + body
+
+
+def edit_case(rng, case):
+    """a random *phase-only edit* of a case (what a phasing writer may do, for every ploidy): the alleles of fully present
+    genotypes are permuted, separators are set at will, HP / PQ / PS are added, changed or deleted (FORMAT column, values and
+    header definitions), `##phasing` lines come and go.  Everything else is copied."""
+    import copy
+    out = copy.deepcopy(case)
+    header = list(case["header_lines"]) if case.get("header_lines") else default_header(case)
+    for r in out["records"]:
+        fmt = r["format"]
+        if fmt is None:
+            continue
+        pos = int(r["fixed"][1])
+        n_alt = len(r["fixed"][4].split(","))
+        keep = [k for k in fmt if k not in PHASE_TAGS or rng.random() < 0.6]
+        for t in PHASE_TAGS:
+            if t not in keep and rng.random() < 0.3:
+                lo = 1 if keep[:1] == ["GT"] else 0
+                keep.insert(rng.randrange(lo, len(keep) + 1), t)
+        calls = []
+        for vals in r["calls"]:
+            d = dict(zip(fmt, vals + ["."] * (len(fmt) - len(vals))))
+            ploidy = 2
+            if "GT" in d:
+                toks = d["GT"].replace("|", "/").split("/")
+                ploidy = len(toks)
+                if "." not in toks and rng.random() < 0.8:
+                    before = list(toks)
+                    for _ in range(5):           # a real change of order whenever the genotype is not homozygous
+                        rng.shuffle(toks)
+                        if toks != before:
+                            break
+                mode = rng.choice(["|", "/", "mixed"])
+                seps = [rng.choice("|/") if mode == "mixed" else mode for _ in toks[1:]]
+                g = toks[0]
+                for sp, t in zip(seps, toks[1:]):
+                    g += sp + t
+                d["GT"] = g
+            new = []
+            for k in keep:
+                if k in PHASE_TAGS and (k not in d or rng.random() < 0.5):
+                    new.append(gen_value(rng, k, n_alt, ploidy, pos))
+                else:
+                    new.append(d[k])
+            calls.append(new)
+        r["format"], r["calls"] = keep, calls
+    used = {k for r in out["records"] for k in (r["format"] or [])}
+    header = [l for l in header if not (l.startswith("##phasing=") and rng.random() < 0.5)]
+    for t in PHASE_TAGS:
+        if t in used and not any(l.startswith(f"##FORMAT=<ID={t},") for l in header):
+            header.append(FORMAT_DEFS[t])
+    if rng.random() < 0.3:
+        header.insert(rng.randrange(1, len(header) + 1), "##phasing=edited")
+    out["header_lines"] = header
+    return out
